@@ -1,6 +1,8 @@
 """C32 — servers are ordered consistently and upload permission is enforced (storage_client.py, mutable/publish.py)."""
 import base64
+import contextlib
 import hashlib
+import io
 import json
 import os
 from datetime import datetime, timedelta, timezone
@@ -223,7 +225,8 @@ def run_case(ctx, case, workdir, lines, impl, cases, canon):
     from allmydata.mutable.publish import Publish
     from allmydata.mutable.common import NotEnoughServersError
     w = World(case, workdir)
-    A, B = w.broker(case["orders"][0]), w.broker(case["orders"][1])
+    with contextlib.redirect_stdout(io.StringIO()):     # create_grid_manager_verifier print()s every failed signature
+        A, B = w.broker(case["orders"][0]), w.broker(case["orders"][1])
     nconn = sum(1 for s in case["servers"] if s["connected"])
     # the code's own upload_permitted must equal the documented predicate (ties C32's filter to C33)
     for s in A.servers.values():
@@ -284,6 +287,19 @@ def run_case(ctx, case, workdir, lines, impl, cases, canon):
     ctx.count("preferred:%d" % len(case["preferred"]))
 
 
+def corpus():
+    """peers.preferred from tahoe.cfg must move a server to the front (found 2026-09: the configured ids stay `str`, never equal to
+    the `bytes` server ids, so the unchanged tree ignores them) — every server in turn is the preferred one."""
+    res = []
+    for p in range(3):
+        res.append({"gm_seeds": ["%02x" % (i + 1) * 32 for i in range(3)], "gm_keys": [],
+                    "servers": [{"seed": "%02x" % (0x41 + i) * 32, "perm": None, "connected": True, "certs": [], "nickname": "srv%d" % i}
+                                for i in range(3)],
+                    "preferred": [["s", p]], "orders": [[0, 1, 2], [2, 0, 1]], "psi": ["00" * 16, "ff" * 16],
+                    "goals": [{"total": 3, "goal": [], "bad": []}]})
+    return res
+
+
 def run(ctx):
     workdir = os.path.join(os.path.dirname(os.path.dirname(os.path.dirname(os.path.abspath(__file__)))), ".work")
     if ctx.replay:
@@ -291,7 +307,7 @@ def run(ctx):
         c.pop("at", None)
         gen = [c]
     else:
-        gen = [gen_case(ctx.rng) for _ in range(ctx.budget(300, 6000))]
+        gen = corpus() + [gen_case(ctx.rng) for _ in range(ctx.budget(300, 6000))]
     lines, impl, cases, canon = [], [], [], []
     for case in gen:
         run_case(ctx, case, workdir, lines, impl, cases, canon)
